@@ -1,5 +1,111 @@
-/- Driver.Order — line protocol of the `order` sub-harness (stub until the unit is built). -/
-import Ioc.Basic
+/-
+  Driver.Order — line protocol of the `order` / `orderstart` sub-harnesses (C12).
+
+  participant token:  [i] (p<k> | o<k> | n | q) markers*
+      p<k>  priority-ordered, Order() = k (signed decimal, int64 range)     o<k>  ordered only
+      n     neither interface                                               q     Priority() without Order()  (→ plain)
+      i     (processors) InstantiationAware
+      markers   loaders:    !  LoadConfig fails      +  non-empty config      *  non-empty config that SetConfig rejects
+                runners:    !  Run fails
+                processors: !  Before… fails   ?  Before… returns nil   ^  After… fails   ~  After… returns nil
+
+  in :  `D tok*`                          → SortOrderedComponents:  `p<k>` / `o<k>` / `n<id>` sequence  (`-` = empty)
+        `S L tok* P tok* R tok*`          → one start with a probe component:
+               `L:… B:… I:… P:… A:… R:… E:ok|err`   (LoadConfig, SetConfig, AfterInstantiation, BeforeInit, AfterInit, Run logs)
+               plain participants print as `n<id>` for loaders (registration order is defined) and `n` otherwise
+  Tie order inside a (class, key) group is never printed, so Go's unstable sort.Slice and `isort` agree.
+-/
+import Ioc.Order
 namespace Driver.Order
-def handle (_line : String) : String := "unimplemented"
+open Ioc Ioc.Order
+
+structure Tok where
+  part : Part
+  id : Nat
+  inst : Bool := false
+  marks : List Char := []
+
+def parseTok (s : String) (id : Nat) : Option Tok :=
+  let cs := s.toList
+  let (inst, cs) := match cs with
+    | 'i' :: r => (true, r)
+    | _ => (false, cs)
+  match cs with
+  | [] => none
+  | c :: rest =>
+    let ks := rest.takeWhile (fun ch => ch.isDigit || ch == '-')
+    let ms := rest.dropWhile (fun ch => ch.isDigit || ch == '-')
+    if c == 'n' || c == 'q' then
+      if ks.isEmpty then some { part := Part.ofIfaces none (c == 'q'), id := id, inst := inst, marks := ms } else none
+    else if c == 'p' || c == 'o' then
+      match (String.ofList ks).toInt? with
+      | some k => some { part := Part.ofIfaces (some k) (c == 'p'), id := id, inst := inst, marks := ms }
+      | none => none
+    else none
+
+def parseToks : List String → Nat → Option (List Tok)
+  | [], _ => some []
+  | s :: rest, i =>
+    match parseTok s i, parseToks rest (i + 1) with
+    | some t, some ts => some (t :: ts)
+    | _, _ => none
+
+def showTok (withId : Bool) (t : Tok) : String :=
+  match t.part with
+  | .prio k => "p" ++ toString k
+  | .ord k => "o" ++ toString k
+  | .plain => if withId then "n" ++ toString t.id else "n"
+
+def showList (sep : String) (withId : Bool) (l : List Tok) : String :=
+  if l.isEmpty then "-" else joinWith sep (l.map (showTok withId))
+
+def theSort : (Tok → Tok → Bool) → List Tok → List Tok := fun lt l => isort lt l
+
+def loadRes (t : Tok) : Step :=
+  if t.marks.contains '!' then .err
+  else if t.marks.contains '*' then .next true
+  else if t.marks.contains '+' then .next false
+  else .skip
+
+def beforeCb (t : Tok) (_ : Unit) : Res Unit :=
+  if t.marks.contains '!' then .err else if t.marks.contains '?' then .nil else .val ()
+
+def afterCb (t : Tok) (_ : Unit) : Res Unit :=
+  if t.marks.contains '^' then .err else if t.marks.contains '~' then .nil else .val ()
+
+/-- split `L … P … R …` into its three sections -/
+def sections (ws : List String) : Option (List String × List String × List String) :=
+  match ws with
+  | "L" :: rest =>
+    let ls := rest.takeWhile (· != "P")
+    match rest.dropWhile (· != "P") with
+    | "P" :: rest2 =>
+      let ps := rest2.takeWhile (· != "R")
+      match rest2.dropWhile (· != "R") with
+      | "R" :: rs => some (ls, ps, rs)
+      | _ => none
+    | _ => none
+  | _ => none
+
+def handle (line : String) : String :=
+  match (line.splitOn " ").filter (· != "") with
+  | "D" :: toks =>
+    match parseToks toks 0 with
+    | some ts => showList " " true (sortOrdered theSort Tok.part ts)
+    | none => "bad-line"
+  | "S" :: ws =>
+    match sections ws with
+    | some (ls, ps, rs) =>
+      match parseToks ls 0, parseToks ps 0, parseToks rs 0 with
+      | some l, some p, some r =>
+        let g := start theSort Tok.part loadRes (fun t => some t) Tok.inst (fun _ => .skip)
+                   beforeCb afterCb (fun t => t.marks.contains '!') l p r
+        "L:" ++ showList "," true (firsts g.loads) ++ " B:" ++ showList "," true (seconds g.loads) ++
+        " I:" ++ showList "," false (firsts g.inst) ++ " P:" ++ showList "," false g.before ++
+        " A:" ++ showList "," false g.after ++ " R:" ++ showList "," false g.runs ++
+        " E:" ++ (if g.err then "err" else "ok")
+      | _, _, _ => "bad-line"
+    | none => "bad-line"
+  | _ => "bad-line"
+
 end Driver.Order
